@@ -146,9 +146,11 @@ func c17Coords(c c17Case) (x, y *big.Int) {
 	return px, py
 }
 
-func runC17(c c17Case) ev.Outcome {
+func runC17(c c17Case) (out ev.Outcome) {
 	cv := getCurve(c.Curve)
-	out := ev.Outcome{}
+	out = ev.Outcome{}
+	var watch bigWatch
+	defer func() { watch.finish(&out, "point arithmetic") }()
 	fail := func(sig, f string, a ...interface{}) ev.Outcome {
 		out.Err, out.Sig = fmt.Errorf(f, a...), sig
 		return out
@@ -316,6 +318,9 @@ func runC17(c c17Case) ev.Outcome {
 		out.Nontrivial = c.KC != "rand"
 		k2 := c.K2.Big()
 		P := crypto.ScalarBaseMult(cv.EC, k2)
+		watch.add("k", k)
+		watch.add("k2", k2)
+		watch.add("P", P.X(), P.Y())
 		// ScalarBaseMult / ScalarMult against the reference (k not reduced by the harness)
 		if rx, ry, ok := cv.refBaseMul(k); ok {
 			if !ptEq(crypto.ScalarBaseMult(cv.EC, k), rx, ry) {
@@ -351,6 +356,10 @@ func runC17(c c17Case) ev.Outcome {
 			return out
 		}
 		P, Q := crypto.ScalarBaseMult(cv.EC, a), crypto.ScalarBaseMult(cv.EC, b)
+		watch.add("a", a)
+		watch.add("b", b)
+		watch.add("P", P.X(), P.Y())
+		watch.add("Q", Q.X(), Q.Y())
 		// Equals is coordinate equality (the laws below lean on it): equal to an independent copy, different
 		// from its negative, from a point sharing only x or only y, and from another point
 		negP := crypto.NewECPointNoCurveCheck(cv.EC, P.X(), new(big.Int).Sub(cv.P, P.Y()))
